@@ -196,14 +196,21 @@ theorem runLoop_spec : ∀ (fuel : Nat) (x : Session), SGood c aL aS nL n x →
               have := r2 hs'
               rw [hrd] at this
               exact this.1.src
-          refine ih _ ?_ o x' h
-          unfold Session.release
-          simp only
-          split
-          · exact sgood_of_eq hy hsrc rfl (by intro e2 he2; cases he2) (by intro h; cases h)
-          · split
+          have hgrel : SGood c aL aS nL n (y.release e') := by
+            unfold Session.release
+            simp only
+            split
             · exact sgood_of_eq hy hsrc rfl (by intro e2 he2; cases he2) (by intro h; cases h)
-            · exact sgood_of_eq hy hsrc rfl (by intro e2 he2; cases he2) (by intro h; cases h)
+            · split
+              · exact sgood_of_eq hy hsrc rfl (by intro e2 he2; cases he2) (by intro h; cases h)
+              · exact sgood_of_eq hy hsrc rfl (by intro e2 he2; cases he2) (by intro h; cases h)
+          by_cases hfresh : x.enc.isNone = true
+          · rw [if_pos hfresh] at h
+            simp only [Prod.mk.injEq] at h
+            obtain ⟨rfl, rfl⟩ := h
+            exact ⟨hgrel, (fun p hp => by cases hp), (fun p hp => by cases hp)⟩
+          · rw [if_neg hfresh] at h
+            exact ih _ hgrel o x' h
 
 /-! ### whole histories: any sequence of `Sender::read`, `remove_object`, clock advances -/
 
